@@ -98,3 +98,83 @@ def builds_variant(f, blocks, variant):
             if s["s"] == "assign" and s["rv"]["k"] == "agg" and s["rv"].get("variant") == variant:
                 return bi
     return None
+
+
+def prestep_flag_helper(L, P):
+    """The interrupt test of the interpreter loop, when it lives in a helper called once per step (`if let Some(e) =
+    reason_to_stop(env, session, ..) { restore; return Err(e) }`). Returns None when there is no such helper, else a dict
+    {name, call_bb, problems: [...]} where `problems` is empty iff, inside the helper, (1) exactly one test of an
+    Atomic<bool> (load, or swap(false)) dominates every return, (2) EvalError::Interrupted is built only on the true edge of
+    that test, after a store(false) on that edge (or the swap), (3) no other store to an Atomic<bool> exists in the
+    helper, (4) the true edge never produces the helper's `continue` result; and in eval (5) the call dominates the step
+    and (6) the `stop` result cannot reach the step."""
+    from . import dflow as D
+    f = L.f
+    for bi in sorted(L.pre_region):
+        t = f.blocks[bi]["term"]
+        if t["t"] != "call" or t.get("target") is None:
+            continue
+        gname = M.callee_name(t) or ""
+        g = P.funcs.get(gname)
+        if g is None:
+            continue
+        tests = []
+        swap = False
+        for sw in D.bool_switches(g):
+            r = sw["root"]
+            if r[0] != "call":
+                continue
+            n = M.callee_name(r[2]) or ""
+            if n.endswith("::load") and "Atomic" in n:
+                tests.append(sw)
+            elif n.endswith("::swap") and "Atomic" in n and any((M.op_const(a) or {}).get("v") is False for a in r[2]["args"]):
+                tests.append(sw)
+                swap = True
+        if not tests:
+            continue
+        probs = []
+        rets = [b for b in g.reachable_blocks() if g.blocks[b]["term"]["t"] == "return"]
+        if len(tests) != 1:
+            probs.append("%d tests of the flag in %s (expected one)" % (len(tests), gname))
+        sw = tests[0]
+        if not all(g.dominates(sw["bb"], r) for r in rets):
+            probs.append("%s can return without testing the flag" % gname)
+        tre = D.edge_dominated(g, sw["bb"], sw["true"]) if sw["true"] is not None else set()
+        ib_all = [b for b in g.reachable_blocks() for s_ in g.blocks[b]["stmts"]
+                  if s_.get("s") == "assign" and s_["rv"]["k"] == "agg" and s_["rv"].get("variant") == "Interrupted"]
+        if not ib_all:
+            probs.append("%s never builds EvalError::Interrupted" % gname)
+        if any(b not in tre for b in ib_all):
+            probs.append("EvalError::Interrupted is built outside the true edge of the flag test")
+        stores = [(b, g.blocks[b]["term"]) for b in g.reachable_blocks() if g.blocks[b]["term"]["t"] == "call"
+                  and (M.callee_name(g.blocks[b]["term"]) or "").endswith("::store") and "Atomic" in (M.callee_name(g.blocks[b]["term"]) or "")]
+        clears = [b for b, st in stores if b in tre and any((M.op_const(a) or {}).get("v") is False for a in st["args"])]
+        if not swap and not (clears and all(any(g.dominates(c, ib) for c in clears) for ib in ib_all)):
+            probs.append("the consumed interrupt is not cleared with store(false) before Interrupted is returned")
+        if any(b not in tre for b, st in stores):
+            probs.append("the flag is written outside the consumed-interrupt edge")
+        # caller side
+        if not f.dominates(bi, L.step_bb):
+            probs.append("the call of %s does not dominate the step" % gname)
+        dest = t["dest"]["l"]
+        cont_names, stop_ok = None, True
+        for esw in D.enum_switches(f):
+            if esw["place"]["l"] == dest and not esw["place"]["p"]:
+                allt = dict(esw["by_target"])
+                if esw["otherwise_variants"]:
+                    allt[esw["otherwise"]] = esw["otherwise_variants"]
+                for tgt, names in allt.items():
+                    if L.step_bb in D.reach_from(f, [tgt], avoid_blocks=[L.pop_bb]):
+                        cont_names = set(names) if cont_names is None else cont_names | set(names)
+        tb = D.try_continue_block(f, bi)
+        if tb is not None:
+            cont_names = {"Ok"}
+        if cont_names is None:
+            probs.append("the result of %s does not decide whether the step runs" % gname)
+        else:
+            made = [b for b in D.reach_from(g, [sw["true"]]) for s_ in g.blocks[b]["stmts"] if s_.get("s") == "assign"
+                    and s_["rv"]["k"] == "agg" and s_["rv"].get("variant") in cont_names and not s_["place"]["p"] and s_["place"]["l"] == 0]
+            if made:
+                probs.append("the true edge of the flag test can return the `continue` result")
+        return {"name": gname, "call_bb": bi, "problems": probs, "fn": g, "test_bb": sw["bb"]}
+    return None
